@@ -95,6 +95,8 @@ class Model(object):
 
         if not isinstance(e, exp) or e._is_top or not e._is_def or e.size == 0 or e.size > 256:
             return False
+        if len(str(e)) > 500 or len(self.pool) >= 40:
+            return False  # keep the per-step invariant cheap (expression growth is exponential otherwise)
         try:
             v = values(e)
         except (R.Inconclusive, AssertionError):
